@@ -378,6 +378,37 @@ impl World {
 				{
 					self.out.bump("probe:zero_fee_trimmed_sum_over_240");
 				}
+				// C02: "HTLCs too small to have a commitment-transaction output ... whose total the node
+				// keeps within its configured dust-exposure limit". With a fixed-msat limit (and, as the
+				// scheduler guarantees then, a constant feerate) every HTLC a node *offers* is admitted
+				// only while all dust on that commitment stays within the node's limit, so the trimmed
+				// HTLCs it offered can never add up to more - on the peer's commitment (which `from`
+				// signs here) nor on its own (the HTLCs the broadcaster offered, against its limit).
+				let peer = if self.chans[li].a == from { self.chans[li].b } else { self.chans[li].a };
+				for (who, offered_by_bro) in [(from, false), (peer, true)] {
+					if let Some(limit) = self.cfg.nodes[who].max_dust_exposure_msat {
+						self.out.bump("oracle:C02-6 dust exposure");
+						let sum: u64 = exp
+							.trimmed
+							.iter()
+							.filter(|h| h.offered_by_broadcaster == offered_by_bro)
+							.map(|h| h.amount_msat)
+							.sum();
+						if sum * 2 > limit {
+							self.out.bump("probe:offered_dust_above_half_the_exposure_limit");
+						}
+						if sum > limit {
+							self.violate(
+								"C02",
+								"C02-6 offered dust HTLCs exceed the configured dust-exposure limit",
+								format!(
+									"channel {} commitment {} of node {}: node {} has offered HTLCs without an output worth {} msat in total, its max_dust_htlc_exposure is FixedLimitMsat({})",
+									li, commit.number, peer, who, sum, limit
+								),
+							);
+						}
+					}
+				}
 				if let Err(e) = self.ledgers[li].compare(&exp, &commit) {
 					self.violate(
 						"C01",
